@@ -896,6 +896,11 @@ func genCase(r *gen.Rand) *CaseIn {
 		acc += s
 	}
 	bnd = append(bnd, n-1)
+	// focus mode: most literals are taken from the two index rows that delimit one fragment range, so that the
+	// condition is decided differently by the middle / left-bound / right-bound rectangles of that range
+	focus := r.Chance(2, 5)
+	fs := r.Intn(len(bnd) - 1)
+	focusRows := []int{bnd[fs], bnd[fs+1]}
 	pickLit := func(col int) string {
 		ty := "int"
 		c := col
@@ -907,6 +912,8 @@ func genCase(r *gen.Rand) *CaseIn {
 		for try := 0; try < 4; try++ {
 			var v tval
 			switch k := r.Intn(10); {
+			case focus && k < 8:
+				v = rows[focusRows[r.Intn(2)]][c]
 			case k < 6:
 				v = rows[bnd[r.Intn(len(bnd))]][c]
 			case k < 8:
